@@ -30,6 +30,7 @@ SERVICES: Dict[str, Tuple[List[int], int, List[int], int, Any]] = {
     "Sh": ([0x2E, 0xF1], 1, [0x6E, 0xF1], 1, None),      # emitted as ONE 16 bit constant
     "Si": ([0x85], 1, [0xC5], 1, [[0x12], [0x22]]),      # two negative responses with the same constant prefix
     "Sj": ([0x00], 1, [0x40], 1, None),                  # the service identifier 00
+    "Sk": ([0xFF], 1, [0xBF], 1, None),                  # the service identifier FF
 }
 WIDE = {"Sh"}
 
@@ -95,7 +96,7 @@ def decode(layer: Any, m: bytes, req: Optional[bytes] = None) -> Tuple[Optional[
 
 def process(recs: List[Dict[str, Any]]) -> Dict[str, Any]:
     fails: List[Tuple[str, Dict[str, Any]]] = []
-    st = {"layers": 0, "messages": 0, "must_nonempty": 0, "dontcare": 0, "own": 0, "responses": 0, "groups": 0}
+    st = {"layers": 0, "messages": 0, "must_nonempty": 0, "dontcare": 0, "own": 0, "responses": 0, "groups": 0, "foreign_requests": 0}
 
     def fail(clause: str, rec: Dict[str, Any], detail: Dict[str, Any]) -> None:
         if len(fails) < 300:
@@ -150,9 +151,31 @@ def process(recs: List[Dict[str, Any]]) -> Dict[str, Any]:
                                                                          "service": o["svc"], "object": o["obj"], "exc": exc2,
                                                                          "got": [(s, ob) for (s, ob, _v) in (got2 or [])],
                                                                          "empty_prefix": not SERVICES[o["svc"]][0]})
+        # ... and not through the request of a service none of whose objects can match it (a global negative response that
+        # echoes another request's first byte is not "applicable")
+        mustnot = {bytes(row["m"]): set(row["mustnot"]) for row in rec["table"]}
+        for o in rec["own"]:
+            m = bytes(o["m"])
+            if o["obj"].startswith("RQ_"):
+                continue
+            for t in names:
+                if t == o["svc"] or t not in mustnot.get(m, set()):
+                    continue
+                req = own[(t, "RQ_" + t)]
+                got3, exc3 = decode(layer, m, req)
+                st["foreign_requests"] += 1
+                spurious3 = {s_ for (s_, _ob, _v) in (got3 or [])} & mustnot[m]
+                if spurious3:
+                    fail("response_attributed_through_foreign_request", rec,
+                         {"response": m.hex(), "request": req.hex(), "response_of": o["svc"], "object": o["obj"],
+                          "spurious": sorted(spurious3), "exc": exc3})
         for g in rec["groups"]:
             st["groups"] += 1
-            real = sorted(s.short_name for s in layer.service_groups[g["sid"]])
+            try:
+                real = sorted(s.short_name for s in layer.service_groups[g["sid"]])
+            except Exception as e:  # noqa: BLE001
+                fail("service_groups", rec, {"sid": g["sid"], "expected": sorted(g["svcs"]), "exc": f"{type(e).__name__}: {str(e)[:80]}"})
+                continue
             if real != sorted(g["svcs"]):
                 fail("service_groups", rec, {"sid": g["sid"], "expected": sorted(g["svcs"]), "got": real})
     return {"fails": fails, "stats": st}
